@@ -275,7 +275,9 @@ fn strip_line_comments(raw: &str) -> String { raw.to_string() }
 pub struct G<'a> { pub rng: &'a mut Rng, pub n: usize, pub depth: usize, pub incs: Vec<String>, pub defs: Vec<(String, usize, usize)>, pub obj: Vec<String>, pub opts: Opts }
 
 #[derive(Clone, Copy, Default)]
-pub struct Opts { pub errors: bool, pub comments: bool, pub glue: bool, pub positions: bool, pub kept: bool, pub include_same_line: bool, pub predefined_names: bool }
+pub struct Opts { pub errors: bool, pub comments: bool, pub glue: bool, pub positions: bool, pub kept: bool, pub include_same_line: bool, pub predefined_names: bool,
+    /// generate conditional chains (off for C05, whose property is about macro usages only)
+    pub conds: bool }
 
 const NAMES: &[&str] = &["A", "B", "C", "DD", "M1", "F", "G", "XY"];
 
@@ -378,7 +380,7 @@ impl<'a> G<'a> {
                 } else { glue = false; v.push(It::Tok(self.id("w"))); self.sep(v); }
                 if glue { v.push(It::Tok(self.id("w"))); self.sep(v); }
             }
-            70..=82 if self.depth < 3 => {
+            70..=82 if self.depth < 3 && self.opts.conds => {
                 self.depth += 1;
                 let mut then = vec![]; let n1 = self.rng.range(0, 3); self.items(n1, &mut then);
                 let ne = self.rng.below(3);
